@@ -594,3 +594,126 @@ Proof.
   cbn [apply_op] in H. destruct (dadd (balance r) (royalty_c r)); [|discriminate].
   injection H as <-. sr. repeat split.
 Qed.
+
+(* ---- events of finalize_fees_for_commit replay to the vault balance writes ------------------------------- *)
+Definition sumk (l : list (Z * Z)) (v : Z) : Z :=
+  fold_right (fun (e : Z * Z) acc => (if fst e =? v then snd e else 0) + acc) 0 l.
+Definition locks_kv (ls : list (Z * Z * bool)) : list (Z * Z) :=
+  map (fun e : Z * Z * bool => (fst (fst e), snd (fst e))) ls.
+(* effect of an event on the balance of vault v *)
+Definition ev_delta (v : Z) (e : event) : Z :=
+  match e with
+  | EvDeposit v' a => if v' =? v then a else 0
+  | EvPayFee v' a => if v' =? v then - a else 0
+  | EvBurn _ => 0
+  end.
+Definition evs_delta (v : Z) (l : list event) : Z := fold_right (fun e acc => ev_delta v e + acc) 0 l.
+Definition evs_in (l : list event) : Z :=
+  fold_right (fun e acc => match e with EvPayFee _ a => a | _ => 0 end + acc) 0 l.
+Definition evs_out (l : list event) : Z :=
+  fold_right (fun e acc => match e with EvDeposit _ a => a | EvBurn a => a | _ => 0 end + acc) 0 l.
+
+Lemma sumk_app : forall a b v, sumk (a ++ b) v = sumk a v + sumk b v.
+Proof. induction a as [|e a IH]; intros b v; [reflexivity|]. unfold sumk in *. cbn [app fold_right]. rewrite IH. lia. Qed.
+Lemma evs_delta_app : forall v a b, evs_delta v (a ++ b) = evs_delta v a + evs_delta v b.
+Proof. induction a as [|e a IH]; intros b; [reflexivity|]. unfold evs_delta in *. cbn [app fold_right]. rewrite IH. lia. Qed.
+Lemma evs_in_app : forall a b, evs_in (a ++ b) = evs_in a + evs_in b.
+Proof. induction a as [|e a IH]; intros b; [reflexivity|]. unfold evs_in in *. cbn [app fold_right]. rewrite IH. lia. Qed.
+Lemma evs_out_app : forall a b, evs_out (a ++ b) = evs_out a + evs_out b.
+Proof. induction a as [|e a IH]; intros b; [reflexivity|]. unfold evs_out in *. cbn [app fold_right]. rewrite IH. lia. Qed.
+
+Lemma deposits_delta : forall l v,
+  evs_delta v (map (fun e : Z * Z => EvDeposit (fst e) (snd e)) l) = sumk l v
+  /\ evs_in (map (fun e : Z * Z => EvDeposit (fst e) (snd e)) l) = 0
+  /\ evs_out (map (fun e : Z * Z => EvDeposit (fst e) (snd e)) l) = bdsum l.
+Proof.
+  induction l as [|e l IH]; intros v; [repeat split|]. destruct (IH v) as (A & B & C).
+  unfold evs_delta, evs_in, evs_out, sumk, bdsum in *. cbn [map fold_right ev_delta]. repeat split; lia.
+Qed.
+Lemma payfees_delta : forall l v,
+  evs_delta v (map (fun e : Z * Z => EvPayFee (fst e) (snd e)) l) = - sumk l v
+  /\ evs_in (map (fun e : Z * Z => EvPayFee (fst e) (snd e)) l) = bdsum l
+  /\ evs_out (map (fun e : Z * Z => EvPayFee (fst e) (snd e)) l) = 0.
+Proof.
+  induction l as [|e l IH]; intros v; [repeat split|]. destruct (IH v) as (A & B & C).
+  unfold evs_delta, evs_in, evs_out, sumk, bdsum in *. cbn [map fold_right ev_delta].
+  repeat split; try lia. destruct (fst e =? v); lia.
+Qed.
+
+Lemma paid_per_lock_sums : forall ls refs,
+  map fst refs = map (fun e : Z * Z * bool => fst (fst e)) ls ->
+  (forall v, sumk (paid_per_lock ls refs) v = sumk (locks_kv ls) v - sumk refs v)
+  /\ bdsum (paid_per_lock ls refs) = locksum ls - bdsum refs.
+Proof.
+  induction ls as [|[[v0 lk] c] ls IH]; intros refs H.
+  - destruct refs; [|discriminate]. split; [intros v|]; reflexivity.
+  - destruct refs as [|[v1 rest] refs]; [discriminate|]. cbn [map fst] in H. injection H as Hv Hrest. subst v1.
+    destruct (IH refs Hrest) as (A & B). cbn [paid_per_lock]. split.
+    + intros v. specialize (A v). unfold sumk, locks_kv in *. cbn [map fold_right fst snd]. destruct (v0 =? v); lia.
+    + unfold bdsum, locksum in *. cbn [fold_right fst snd]. lia.
+Qed.
+
+Lemma sumk_locks_rev : forall l v, sumk (locks_kv (rev l)) v = sumk (locks_kv l) v.
+Proof.
+  induction l as [|e l IH]; intros v; [reflexivity|]. cbn [rev]. unfold locks_kv in *.
+  rewrite map_app, sumk_app, IH. cbn [map]. unfold sumk. cbn [fold_right]. lia.
+Qed.
+
+Lemma finalize_locked : forall r s, finalize r = Some s -> s_locked s = locked r.
+Proof.
+  intros r s Hf. unfold finalize in Hf.
+  destruct (dmul (exec_price (cp r)) _); [|discriminate]. destruct (dmul (fin_price (cp r)) _); [|discriminate].
+  destruct (dmul z _); [|discriminate]. destruct (dmul z0 _); [|discriminate].
+  destruct (dadd _ _); [|discriminate]. injection Hf as <-. reflexivity.
+Qed.
+
+(* Replaying the finalisation events (PayFee = -amount on its vault, Deposit = +amount) from the balances
+   before any fee was locked gives exactly the balances finalisation writes: for every vault the events'
+   net effect equals (what is written back) - (what was locked); and over all vaults the PayFee total plus
+   the free credit used equals the Deposit total plus the burnt amount. *)
+Theorem events_replay : forall sh r ok,
+  Inv r -> Pos r -> EffOk r -> TipExact (cp r) (tp_tip r) -> tip_wf (tp_tip r) -> owed r = 0 ->
+  shares_wf sh -> LocksBounded (locked r) -> deducted r <= I192_MAX ->
+  exists s o,
+    finalize r = Some s /\ distribute sh s (free_credit r) ok = DOk o
+    /\ (forall v, evs_delta v (fee_events s o) = sumk (vault_writes o) v - sumk (locks_kv (locked r)) v)
+    /\ evs_in (fee_events s o) = bdsum (d_payments o)
+    /\ evs_in (fee_events s o) + d_free_used o = evs_out (fee_events s o)
+    /\ evs_out (fee_events s o) = d_collected o.
+Proof.
+  intros sh r ok I P E X Wt Ho Sw Lb Hd.
+  destruct (collected_equals_cost sh r ok I P E X Wt Ho Sw Lb Hd)
+    as (s & o & Hf & Hdist & _ & _ & Hpay & _ & Hsplit & Hp0 & Hv0 & Hb0 & Hroy & Hroysum & Hmap & _ & Hrefs).
+  exists s, o. split; [exact Hf|]. split; [exact Hdist|].
+  pose proof (finalize_locked _ _ Hf) as Sl.
+  destruct (paid_per_lock_sums (rev (locked r)) (d_refunds o) Hmap) as (Pk & Pb).
+  assert (Hrw : evs_delta REWARDS_VAULT [] = 0) by reflexivity.
+  unfold fee_events, vault_writes. rewrite Sl.
+  set (roy := d_royalties o) in *. set (refs := d_refunds o) in *.
+  set (rw := if rewards_paid o then [EvDeposit REWARDS_VAULT (d_proposer o + d_validator o)] else []).
+  set (bn := if 0 <? d_burn o then [EvBurn (d_burn o)] else []).
+  assert (Hrwv : forall v, evs_delta v rw = sumk (if rewards_paid o then [(REWARDS_VAULT, d_proposer o + d_validator o)] else []) v).
+  { intros v. unfold rw. destruct (rewards_paid o); [|reflexivity]. unfold evs_delta, sumk. cbn [fold_right ev_delta fst snd]. reflexivity. }
+  assert (Hrwo : evs_out rw = d_proposer o + d_validator o /\ evs_in rw = 0).
+  { unfold rw, rewards_paid. destruct ((d_proposer o =? 0) && (d_validator o =? 0)) eqn:Ez; cbn [negb].
+    - apply andb_true_iff in Ez. destruct Ez as [Z1 Z2]. apply Z.eqb_eq in Z1, Z2. split; [cbn; lia|reflexivity].
+    - split; [unfold evs_out; cbn [fold_right]; lia|reflexivity]. }
+  assert (Hbn : evs_out bn = d_burn o /\ evs_in bn = 0 /\ forall v, evs_delta v bn = 0).
+  { unfold bn. destruct (0 <? d_burn o) eqn:Eb; [apply Z.ltb_lt in Eb|apply Z.ltb_ge in Eb].
+    - repeat split; unfold evs_out; cbn [fold_right]; lia.
+    - repeat split; cbn; lia. }
+  destruct Hrwo as (Ro & Ri). destruct Hbn as (Bo & Bi & Bd).
+  split; [|split; [|split]].
+  - intros v. rewrite !evs_delta_app, !sumk_app.
+    destruct (deposits_delta roy v) as (D1 & _ & _). destruct (payfees_delta (paid_per_lock (rev (locked r)) refs) v) as (F1 & _ & _).
+    rewrite D1, F1, Pk, sumk_locks_rev, Hrwv, Bd. lia.
+  - rewrite !evs_in_app.
+    destruct (deposits_delta roy 0) as (_ & D2 & _). destruct (payfees_delta (paid_per_lock (rev (locked r)) refs) 0) as (_ & F2 & _).
+    rewrite D2, F2, Ri, Bi, Pb, locksum_rev. lia.
+  - rewrite !evs_in_app, !evs_out_app.
+    destruct (deposits_delta roy 0) as (_ & D2 & D3). destruct (payfees_delta (paid_per_lock (rev (locked r)) refs) 0) as (_ & F2 & F3).
+    rewrite D2, D3, F2, F3, Ri, Bi, Ro, Bo, Pb, locksum_rev. unfold roy in *. lia.
+  - rewrite !evs_out_app.
+    destruct (deposits_delta roy 0) as (_ & _ & D3). destruct (payfees_delta (paid_per_lock (rev (locked r)) refs) 0) as (_ & _ & F3).
+    rewrite D3, F3, Ro, Bo. unfold roy in *. lia.
+Qed.
